@@ -530,6 +530,37 @@ GATE = ['declare component Gate(n, m): a -> b\n', 'sequence a = "<n>N" : <n>\n',
         'strand A{,2} = a b\n', 'structure SA = A : <n+m>.\n', 'structure SA2 = A2 : <n> . <m>.']
 
 
+def cli_text_arguments(res, rng, scratch_dir, n):
+    """directed: template arguments that are TEXT (a constraint spelling such as 5S or 2W3S, a name) given on the command line.  What is
+    not a Python expression arrives in the template as the text itself (`pepper-compiler T 5S 5`), exactly as the function API passes a
+    string; both must compile like the hand-written file."""
+    for k in range(n):
+        L = rng.randint(2, 9)
+        code = rng.choice(["%dS" % L, "%dW%dS" % (L - 1, 1) if L > 1 else "1S", "%dN" % L, "N" * L, "%dR" % L])
+        d1 = os.path.join(scratch_dir, "cli%d" % k); d2 = os.path.join(scratch_dir, "clih%d" % k)
+        os.makedirs(d1); os.makedirs(d2)
+        body = 'sequence a = "<code>" : <n>\nsequence b = "<n>N"\nstrand A = a b\nstructure S = A : <2*n>.\n'
+        tmpl = "declare component T(code, n): -> \n" + body
+        hand = "declare component T: -> \n" + body.replace("<code>", code).replace("<2*n>", str(2 * L)).replace("<n>", str(L))
+        with open(os.path.join(d1, "T.comp"), "w") as f:
+            f.write(tmpl)
+        with open(os.path.join(d2, "T.comp"), "w") as f:
+            f.write(hand)
+        r_api = compile_file(d1, "T", [code, L])
+        r_hand = compile_file(d2, "T", [])
+        r_cli = compile_cli(d1, "T", [code, str(L)])
+        res.evaluations += 1
+        res.count("e2e:command-line-text-argument")
+        inp = {"template.comp": tmpl, "argv": [code, str(L)], "hand_expanded.comp": hand}
+        if "ok" not in r_hand or r_api != r_hand:
+            res.violations.append({"what": "template compiled with the text argument %r differs from its hand-expanded form" % code, "input": inp,
+                                   "observed": r_api, "expected": r_hand, "sig": "C13:e2e-differs", "cmd": "compiler('T', [%r, %d], ...)" % (code, L)})
+        elif r_cli != r_hand:
+            res.violations.append({"what": "template compiled from the command line with the text argument %r differs from its hand-expanded form" % code,
+                                   "input": inp, "observed": r_cli, "expected": r_hand.get("ok"), "sig": "C13:e2e-cli-args",
+                                   "cmd": "cd <dir with T.comp>; pepper-compiler T %s %d" % (code, L)})
+
+
 def end_to_end(res, rng, scratch_dir, idx, kind, reqs, impls):
     d1 = os.path.join(scratch_dir, "t%d" % idx)
     d2 = os.path.join(scratch_dir, "h%d" % idx)
@@ -711,6 +742,7 @@ def run(st, tier, seed):
             end_to_end(res, rng, sd, i, "comp", reqs, impls)
         for i in range(m_sys):
             end_to_end(res, rng, sd, m_comp + i, "sys", reqs, impls)
+        cli_text_arguments(res, rng, sd, 6 if tier == "quick" else 60)
     res.programs = len(reqs)
     if st.driver_ok:
         send = [{k: v for k, v in r.items() if not k.startswith("_")} for r in reqs]
